@@ -50,6 +50,7 @@ func VerifC09_FixedConcurrent() {
 	verifAssert(calls == n, "serial Fixed evaluates f n times")
 	calls, maxInflight = 0, 0
 	verifSched(verifParam("c09sched", 1))
+	verifSchedPreempt(verifParam("c09preempt", 1) == 1)
 	con := Fixed(f, a, b, n, rule, conc)
 	verifAssert(verifSchedDrain() == 0, "Fixed(concurrent) leaves no goroutine behind")
 	verifAssert(calls == n, "Fixed(concurrent) evaluates f n times")
